@@ -29,7 +29,8 @@
                       impl Serialize for TextResource / AnnotationDataSet      (site 2)
      IfChanged i b    ChangeMarker::changed() of member i, b = the flush       (site 3)
      ClearChanged i   ChangeMarker::mark_unchanged()                           (site 4)
-     Yield            a scheduling point without effect (thread start)
+     Yield            a scheduling point without effect (thread start; site 6: a sub-store file is
+                      about to be written)
    Emit / FEmit are thread-local: a token appended to the string the thread is
    building, resp. written to a stand-off file.  There is no command that sets a
    changed flag: mark_changed() is only reachable through &mut self.
@@ -184,7 +185,9 @@ Inductive fkind :=
 | Txt      (* stand-off plain text file (resource whose filename does not end in .json) *)
 | Json     (* stand-off STAM JSON file (dataset, or resource with a .json filename) *)
 | JsonBroken (* stand-off STAM JSON file that cannot be written (its directory is gone) *)
-| TxtBroken.  (* stand-off plain text file that cannot be written *)
+| TxtBroken   (* stand-off plain text file that cannot be written *)
+| SubStore.   (* a sub-store (AnnotationSubStore): always written as @include by the store
+                 serialisation, which also writes its file, every time (no changed flag) *)
 
 Definition emit (sink : option nat) (t : tok) : cmd :=
   match sink with None => Emit t | Some f => FEmit f t end.
@@ -217,6 +220,7 @@ Fixpoint ser_member (fuel : nat) (sink : option nat) (i : nat) (k : fkind) : lis
       (* to_json_file: set NoInclude; open_file_writer fails; set AllowInclude (since 7e4eec1); Err *)
       [IfMode [emit sink (t_include i); IfChanged i [SetMode NoInc; SetMode Allow; Fail]]
               [emit sink (t_inline i)]]
+  | SubStore => [emit sink (t_inline i)]   (* not a member that can be serialised on its own; see ser_members *)
   | TxtBroken =>
       (* std::fs::write fails: Err, mark_unchanged() is not reached *)
       [IfMode [emit sink (t_include i); IfChanged i [Fail]]
@@ -226,6 +230,10 @@ Fixpoint ser_member (fuel : nat) (sink : option nat) (i : nat) (k : fkind) : lis
 Fixpoint ser_members (fuel : nat) (i : nat) (mem : list fkind) : list cmd :=
   match mem with
   | [] => []
+  | SubStore :: r =>
+      (* impl Serialize for AnnotationStore: "@include": filename(s), then substore.save() for each
+         sub-store (yield site 6 at the start of ResultItem<AnnotationSubStore>::save) *)
+      [Emit (t_include i); Yield; FEmit i (t_inline i)] ++ ser_members fuel (S i) r
   | k :: r => ser_member fuel None i k ++ ser_members fuel (S i) r
   end.
 
@@ -248,7 +256,8 @@ Inductive op :=
                                  files and the changed flags are not touched (to_cbor_file) *)
 | OpRefused (i : nat)         (* ToJson::to_json_string(member, config whose dataformat is not JSON):
                                  set NoInclude, refuse, set AllowInclude, Err (json.rs) *)
-| OpRefusedThenStore (i : nat). (* the refused call, then store.to_json_string() on the same thread *)
+| OpRefusedThenStore (i : nat) (* the refused call, then store.to_json_string() on the same thread *)
+| OpStoreChanged.             (* store.changed(): reads the store's own flag (site 3), which nothing writes *)
 
 Definition kind_of (mem : list fkind) (i : nat) : fkind := nth i mem NoFile.
 
@@ -274,6 +283,7 @@ Definition prog (fuel : nat) (mem : list fkind) (o : op) : list cmd :=
   | OpRefused _ => [Yield; SetMode NoInc; SetMode Allow; Fail]
   | OpRefusedThenStore _ =>
       [Yield; SetMode NoInc; SetMode Allow; Fail; EndCall] ++ ser_members fuel 0 mem ++ [EndCall]
+  | OpStoreChanged => [Yield; Yield]
   end.
 
 (* the calls whose static reading is defined (no refusal) *)
